@@ -362,8 +362,15 @@ func (e *Explorer) Run() Output {
 		f    *world.Flat
 	}
 	var roots []rootState
-	for _, r := range e.Sc.Roots {
-		roots = append(roots, rootState{r.Name, BuildRoot(e.W, r, e.Sc.Rewards)})
+	for i, r := range e.Sc.Roots {
+		f := BuildRoot(e.W, r, e.Sc.Rewards)
+		if i == 0 {
+			// self-check: the same setup executed twice gives byte-identical states
+			if f2 := BuildRoot(e.W, r, e.Sc.Rewards); f2.Key(nil) != f.Key(nil) {
+				panic("HARNESS: root " + r.Name + " built twice gives different states (nondeterministic harness or code under test)")
+			}
+		}
+		roots = append(roots, rootState{r.Name, f})
 	}
 	for d := 1; d <= e.Sc.Depth; d++ {
 		e.visited = map[[32]byte]int8{}
